@@ -118,6 +118,9 @@ func init() {
 				AddTagArgs(c.Tape, w) // some commands receive tag values ({t:port.key})
 			}
 			c.Sample = sample(w)
+			if v, done := defaultNamesDeterminism(c, w); done {
+				return v
+			}
 			ex := Eval(w)
 			var root *simrt.Inode
 			nextIno := 0
@@ -243,6 +246,14 @@ func init() {
 					if inc.Sim.End == simrt.EndDeadlock {
 						return Viol("deadlock", deadlockSig(inc), "Run never returns: %s", endDesc(inc))
 					}
+					if inc.RT.RunReturned {
+						if left := Leftovers(inc.RT.ReturnSnap); len(left) > 0 {
+							return Viol("early-return/tmp-left", "component", "Run returned but temp directories / FIFOs of the run are left behind: %v", left)
+						}
+						if len(inc.RT.ReturnRunning) > 0 {
+							return Viol("early-return", "component", "Run returned while command(s) still executing: %v", inc.RT.ReturnRunning)
+						}
+					}
 					return OK()
 				}
 			default:
@@ -325,4 +336,89 @@ func ExportCase(t *simrt.Tape) (*WF, map[string]string, []string) {
 		files[k] = string(v)
 	}
 	return w, files, ex.TaskKeys()
+}
+
+// defaultNamesDeterminism: one case in eight runs the workflow with scipipe's
+// DEFAULT output names (no SetOut) twice, on two fresh working directories
+// and under two different schedules / map orders, and compares what was
+// produced: "the set of files a workflow produces and their contents are a
+// function of the workflow graph and its inputs alone, not of timing". No
+// reference is needed for the names.
+func defaultNamesDeterminism(c *Case, w *WF) (Verdict, bool) {
+	if c.Tape.Choose(simrt.StGen, 8, 0) != 1 {
+		return Verdict{}, false
+	}
+	seenBase := map[string]bool{}
+	for p := range w.Sources {
+		if seenBase[baseName(p)] {
+			return Verdict{}, false // (default names use base names: two tasks would claim one path)
+		}
+		seenBase[baseName(p)] = true
+	}
+	for _, n := range w.Nodes {
+		if n.Kind == KStreamToSub || n.Custom != 0 {
+			return Verdict{}, false // (random carrier names; Go functions address outputs by name)
+		}
+	}
+	for i := range w.Nodes {
+		n := &w.Nodes[i]
+		n.Rec = false
+		for k := range n.Outs {
+			n.Outs[k].Pattern = ""
+		}
+		n.Extras = nil
+	}
+	c.Sample = "default output names, two independent runs: " + sample(w)
+	c.Fault("differential-runs")
+	produced := func() (map[string]string, *Inc) {
+		inc := RunInc(w, c.Tape, nil, 0, IncOpts{KillAt: -1, Strategy: strategyOf(c.Tape), Trace: c.Trace})
+		c.Absorb(inc)
+		m := map[string]string{}
+		for p, e := range WorkFiles(inc.Sim.FS.Root) {
+			if e.Kind == simrt.KFile && !strings.HasSuffix(p, ".audit.json") {
+				m[p] = string(e.Data)
+			}
+		}
+		return m, inc
+	}
+	a, inc1 := produced()
+	if v, ok := inconclusiveEnd(inc1); ok {
+		return v, true
+	}
+	if !completedOK(inc1) {
+		return Skipped(Viol("no-completion", "", "%s", endDesc(inc1))), true
+	}
+	b, inc2 := produced()
+	if v, ok := inconclusiveEnd(inc2); ok {
+		return v, true
+	}
+	if !completedOK(inc2) {
+		return Viol("timing-dependent-result", tdSig(w), "the same workflow completed under one schedule but not under another: %s", endDesc(inc2)), true
+	}
+	for _, p := range sortedKeys(a) {
+		if _, ok := b[p]; !ok {
+			return Viol("timing-dependent-result", tdSig(w), "two runs of the same workflow on fresh directories produced different files: %s only in the first (second has %v)", p, sortedKeys(b)), true
+		}
+		if a[p] != b[p] {
+			return Viol("timing-dependent-result", tdSig(w), "two runs of the same workflow on fresh directories produced different bytes in %s: %q vs %q", p, clip([]byte(a[p])), clip([]byte(b[p]))), true
+		}
+	}
+	for _, p := range sortedKeys(b) {
+		if _, ok := a[p]; !ok {
+			return Viol("timing-dependent-result", tdSig(w), "two runs of the same workflow on fresh directories produced different files: %s only in the second (first has %v)", p, sortedKeys(a)), true
+		}
+	}
+	return OK(), true
+}
+
+// tdSig: structural signature of a timing-dependent result. Known finding
+// F-C04-1: a process that reads an out-port next to a tagging component (or
+// another output of the tagged file's task) sees the tagger's tag or not,
+// depending on timing - the record is shared - and with default output names
+// the tag is part of the file name.
+func tdSig(w *WF) string {
+	if taggerSharesRecord(w) {
+		return "sibling-of-tagger-default-name"
+	}
+	return ""
 }
